@@ -6,9 +6,15 @@ S: Replica.tla, all configurations/outcome vectors/orders for N=3 (quick) and N=
 G: ReplicaGen.tla enumerates every scenario; the real replica store is stepped through each by the gate
    scheduler (uploads released in TLC's order, outcomes injected by the gates).
 T: Trace_Replica.tla validates the recorded events strictly (TLC infers the outcome vector), all C12
-   invariants evaluated in every state; plus seeded free-running random scenarios."""
+   invariants evaluated in every state; plus seeded free-running random scenarios.
+U: unbounded-LENGTH leg (leg_unbounded): ReplicaInd.tla, a typed copy of Replica's write and remove paths, with an
+   inductive invariant IndInv => QuorumAtAck /\\ ErrOnlyBelowQuorum /\\ Decided discharged by Apalache (base, step,
+   implication) for N = 4 stores, 2 blobs, every deviation subset and configuration mode; two must-fail runs
+   (weakened invariant, acknowledgement one success early); TLC keeps the copy bound to Replica.tla in both
+   directions (ReplicaIndRef, ReplicaIndRefB) and checks IndInv on the bounded model."""
 import json
 import os
+from concurrent.futures import ThreadPoolExecutor
 
 import vlib
 
@@ -28,6 +34,35 @@ def classify(ctx, seg, idx, reason, leg):
         sig += "/%s/%s" % ("ok>=min" if nok >= cfg.get("min") else "ok<min", "all-done" if len(done) == len(cfg.get("w", [])) else "some-pending")
     replay = {"property": "C12", "leg": leg, "segment": seg, "line_in_segment": idx, "reason": reason}
     ctx.discrepancy(sig, ("%s: %s | scenario %s | uploads tallied before: %s" % (reason, json.dumps(ev), json.dumps(cfg), done))[:500], replay)
+
+
+# (init, inv, length, cinit, expected): proof obligations of the inductive argument on MC_ReplicaInd, then must-fail runs
+APALACHE = [("Init", "IndInv", 0, "ConstInit", "ok"),               # base:  Init => IndInv
+            ("IndInit", "IndInv", 1, "ConstInit", "ok"),            # step:  IndInv /\ Next => IndInv'
+            ("IndInit", "Props", 0, "ConstInit", "ok"),             # IndInv => QuorumAtAck /\ ErrOnlyBelowQuorum /\ Decided
+            ("WeakInit", "WeakInv", 1, "ConstInit", "violated"),    # sensitivity: IndInv without PendingBelow is not inductive
+            ("IndInit", "IndInv", 1, "ConstInitAckEarly", "violated")]   # sensitivity: ack at MinW-1 successes
+
+
+def leg_unbounded(ctx, quick):
+    """Unbounded-length safety of the write/remove path (Apalache) + anti-drift of the typed copy (TLC)."""
+    small = {"N": 2, "FullConfig": "TRUE"}
+    drift = [("ReplicaInd", "ReplicaInd.cfg", small), ("ReplicaIndRef", "ReplicaIndRef.cfg", small),
+             ("ReplicaIndRefB", "ReplicaIndRefB.cfg", small)]
+    if not quick:
+        drift += [(m, c, None) for m, c, _ in drift]      # N = 3 as in the cfg files
+    for _, c, ov in drift:
+        ctx._cfg(c, ov)                                     # derive the cfg files before the threads start
+    with ThreadPoolExecutor(max_workers=5) as ex:
+        fs = [ex.submit(ctx.apalache_ind, "MC_ReplicaInd", i, v, n, cinit=ci, expect=exp) for i, v, n, ci, exp in APALACHE]
+        fs += [ex.submit(ctx.tlc_check, m, c, overrides=ov, workers=4, timeout=1200) for m, c, ov in drift]
+        for f in fs:
+            f.result()
+    ctx.count("S", unbounded_length_obligations_proved=3, unbounded_length_must_fail=2)
+    ctx.assumptions.append("unbounded-length leg: the inductive invariant is discharged for a FIXED universe (N = 4 stores, blobs {2,4}; "
+                           "all subsets of {StragglersAfterAck, RemoveBestEffort}, both configuration modes) and behaviours of ANY length; "
+                           "it covers Replica.tla's write and remove paths (reads are stuttering steps), bound to Replica.tla by TLC "
+                           "refinement checks in both directions on the bounded model")
 
 
 def run(ctx, replay):
@@ -55,6 +90,10 @@ def run(ctx, replay):
         ctx.cov["traces_validated_against_impl"] += 1
         ctx.cov["evaluations"] += 1
         return
+    # ---- U (runs beside S)
+    ctx.specs()
+    upool = ThreadPoolExecutor(max_workers=1)
+    ufut = upool.submit(leg_unbounded, ctx, quick)
     # ---- S
     ctx.tlc_check("Replica", "Replica.cfg", workers=12)
     ctx.tlc_check("Replica", "Replica.cfg", overrides={"N": 2, "FullConfig": "TRUE"}, workers=8)
@@ -64,6 +103,8 @@ def run(ctx, replay):
                   expect_violation="ReadsSurviveLoss")
     if not quick:
         ctx.tlc_check("Replica", "Replica.cfg", overrides={"FullConfig": "TRUE", "Blobs": "{2}"}, workers=14, timeout=1800, coverage=True)
+    ufut.result()
+    upool.shutdown()
     # ---- G
     gens = [("3", '"few"')] if quick else [("3", '"all"'), ("4", '"few"'), ("2", '"all"')]
     total_s = total_e = 0
